@@ -6,13 +6,23 @@ import (
 	"net"
 
 	"github.com/mycoria/mycoria/m"
+	"github.com/mycoria/mycoria/mgr"
 )
 
 // VerifSetupLink runs the real link setup (the exact code tcpPeerWith and the
 // listener run) over a caller-supplied connection.
 // Verification hook: only compiled with the "verif" build tag.
 func (p *Peering) VerifSetupLink(conn net.Conn, peeringURL *m.PeeringURL, outgoing bool) (Link, error) {
-	link, err := newLinkBase(conn, peeringURL, outgoing, p).handleSetup(p.mgr)
+	// Like the connect manager and the setup worker, run the setup under the
+	// manager, so that a panic is recovered and reported (as mgr.ErrWorkerPanic).
+	var link *LinkBase
+	var err error
+	if doErr := p.mgr.Do("verif setup link", func(_ *mgr.WorkerCtx) error {
+		link, err = newLinkBase(conn, peeringURL, outgoing, p).handleSetup(p.mgr)
+		return nil
+	}); doErr != nil {
+		return nil, doErr
+	}
 	if err != nil || link == nil {
 		return nil, err
 	}
